@@ -244,6 +244,8 @@ def rule_naming(ctx):
         e = peel(e)
         while isinstance(e, ast.Call) and dotted(e.func) == "str" and len(e.args) == 1:
             e = peel(e.args[0])
+        if isinstance(e, ast.Subscript) and isinstance(e.value, ast.Attribute) and e.value.attr == "attrs" and norm(e.value.value) != "self":
+            return "copied", str(norm(e)), None
         if not (isinstance(e, ast.Call) and (dotted(e.func) or "").endswith("Timestamp") and len(e.args) == 1):
             return None
         it = peel(e.args[0])
